@@ -42,6 +42,7 @@ type opCtx struct {
 	ticks     int
 	yieldsIn  map[string]int
 	obs       []cbObs // raw observations of the C17 callbacks
+	lockDepth int     // locks held by library code of this operation (instrumented build)
 }
 
 func newOpCtx(failAt int) *opCtx {
@@ -89,7 +90,22 @@ func yieldHook(site int) {
 	if r == nil || oc == nil || r.sc == nil {
 		return
 	}
+	if oc.lockDepth > 0 {
+		return // never park a task that holds a lock
+	}
 	r.sc.yield(ypGlobal, -1000-site)
+}
+
+// lockHook tracks the lock depth of the running operation (instrumented build).
+func lockHook(delta int) {
+	_, oc := curOp()
+	if oc == nil {
+		return
+	}
+	oc.lockDepth += delta
+	if oc.lockDepth < 0 {
+		oc.lockDepth = 0
+	}
 }
 
 var theRun *runCtx
